@@ -47,6 +47,12 @@ pub const FILES: &[&str] = &["SourceFile", "Foo.java", "a(b)", "<unknown>", "", 
 
 pub const LINES: &[u64] = &[0, 1, 2, 5, 13, 42, 66, 4294967294, 4294967295, 4294967296, u64::MAX];
 
+/// identifier for trace elements: like the mapping identifier, but without whitespace / control characters
+/// (outside the printable-trace domain; keeping them would make most generated traces fall out of the domain)
+pub fn tident() -> BoxedStrategy<String> {
+    ident().prop_map(|s| s.chars().map(|c| if c.is_whitespace() || c.is_control() { 'w' } else { c }).collect()).boxed()
+}
+
 /// Names a trace draws from: the mapping's own names so that lookups resolve often.
 #[derive(Clone, Debug, Default)]
 pub struct NamePool {
@@ -91,12 +97,12 @@ pub fn method_ok(m: &str) -> bool {
 pub fn throwable(pool: &NamePool) -> BoxedStrategy<ThrowableAst> {
     let classes = pool.classes_or_default();
     (
-        prop_oneof![8 => select(classes), 1 => ident()],
+        prop_oneof![8 => select(classes), 1 => tident()],
         prop_oneof![
             3 => Just(None),
             4 => select(MESSAGES).prop_map(|m| Some(m.to_string())),
             3 => message().prop_map(Some),
-            1 => ident().prop_map(Some),
+            1 => tident().prop_map(Some),
         ],
     )
         .prop_map(|(class, message)| ThrowableAst { class, message })
@@ -109,19 +115,19 @@ pub fn frame(pool: &NamePool) -> BoxedStrategy<FrameAst> {
     let mut lines: Vec<u64> = LINES.to_vec();
     lines.extend(pool.lines.iter().copied().take(40));
     let free = (
-        prop_oneof![8 => select(classes), 1 => ident()],
-        prop_oneof![8 => select(methods), 1 => ident()],
+        prop_oneof![8 => select(classes), 1 => tident()],
+        prop_oneof![8 => select(methods), 1 => tident()],
         prop_oneof![3 => select(lines), 2 => 0u64..70, 1 => any::<u64>()],
         select(FILES),
     )
-        .prop_map(|(class, method, line, file)| FrameAst { class, method, line, file: Some(file.to_string()) });
+        .prop_map(|(class, method, line, file)| FrameAst { class, method, line, file: Some(file.to_string()), params: None });
     let hits: Vec<(String, String, u64)> = pool.hits.iter().filter(|(c, m, _)| frame_class_ok(c) && method_ok(m)).cloned().collect();
     if hits.is_empty() {
         free.boxed()
     } else {
         prop_oneof![
             5 => free,
-            5 => (select(hits), select(FILES), 0u64..3).prop_map(|((class, method, line), file, d)| FrameAst { class, method, line: line + d, file: Some(file.to_string()) }),
+            5 => (select(hits), select(FILES), 0u64..3).prop_map(|((class, method, line), file, d)| FrameAst { class, method, line: line + d, file: Some(file.to_string()), params: None }),
         ]
         .boxed()
     }
@@ -160,7 +166,14 @@ pub enum TextLine {
     /// indent, frame
     Frame(String, FrameAst),
     Raw(String),
+    /// indented `Caused by: …` line (the prefix is only recognised at the very start of a line: passes through)
+    IndentedCause(String, ThrowableAst),
+    /// invisible non-whitespace character (BOM, zero-width space, soft hyphen) in front of the class:
+    /// the class is then a different, unknown one (prefix, throwable, is_cause)
+    Invisible(String, ThrowableAst, bool),
 }
+
+pub const INVISIBLE: &[&str] = &["\u{feff}", "\u{200b}", "\u{2060}", "\u{ad}"];
 
 pub const RAW_LINES: &[&str] = &[
     "    ... 13 more",
@@ -202,6 +215,8 @@ pub fn text_lines(pool: &NamePool, max: usize) -> BoxedStrategy<Vec<TextLine>> {
         10 => (select(INDENTS), frame(pool)).prop_map(|(i, f)| TextLine::Frame(i.to_string(), f)),
         4 => select(RAW_LINES).prop_map(|s| TextLine::Raw(s.to_string())),
         1 => "\\PC{0,12}".prop_map(TextLine::Raw),
+        2 => (select(&["\t", "    ", " ", "\t\t", "  \t"][..]), throwable(pool)).prop_map(|(i, t)| TextLine::IndentedCause(i.to_string(), t)),
+        2 => (select(INVISIBLE), throwable(pool), any::<bool>()).prop_map(|(p, t, c)| TextLine::Invisible(p.to_string(), t, c)),
     ];
     vec(line, 0..=max).boxed()
 }
@@ -222,6 +237,9 @@ impl TextTrace {
                 TextLine::Throwable(t) => t.print(),
                 TextLine::Cause(t) => format!("Caused by: {}", t.print()),
                 TextLine::Frame(i, f) => format!("{}{}", i, f.print()),
+                TextLine::IndentedCause(i, t) => format!("{i}Caused by: {}", t.print()),
+                TextLine::Invisible(p, t, true) => format!("Caused by: {p}{}", t.print()),
+                TextLine::Invisible(p, t, false) => format!("{p}{}", t.print()),
                 // raw lines never contain line terminators
                 TextLine::Raw(s) => s.replace(['\n', '\r'], " "),
             })
@@ -248,5 +266,82 @@ impl TextTrace {
 pub fn text_trace(pool: &NamePool, max: usize) -> BoxedStrategy<TextTrace> {
     (text_lines(pool, max), prop_oneof![4 => Just(0u8), 2 => Just(1u8), 2 => Just(2u8), 1 => Just(3u8)], any::<bool>())
         .prop_map(|(lines, eol, final_eol)| TextTrace { lines, eol, final_eol })
+        .boxed()
+}
+
+
+/// Deep cause chains around the 127/128/129 and 255/256 boundaries (few frames per level).
+pub fn deep_trace(pool: &NamePool) -> BoxedStrategy<TraceAst> {
+    let level = (throwable(pool), vec(frame(pool), 0..=2));
+    (select(&[126usize, 127, 128, 129, 130, 200, 255, 256, 257, 300][..]), throwable(pool), vec(level, 300))
+        .prop_map(|(depth, top, levels)| {
+            let mut cause: Option<Box<TraceAst>> = None;
+            for (t, fr) in levels.into_iter().take(depth).rev() {
+                cause = Some(Box::new(TraceAst { exception: Some(t), frames: fr, cause }));
+            }
+            TraceAst { exception: Some(top), frames: vec![], cause }
+        })
+        .boxed()
+}
+
+/// Long traces (hundreds of frames from a tiny pool, so that (class, method, line) repeats with different files;
+/// printed form well above 16 KiB).
+pub fn long_trace(pool: &NamePool) -> BoxedStrategy<TraceAst> {
+    (throwable(pool), vec(frame(pool), 6..=10), vec((any::<u16>(), select(FILES)), 350..1200))
+        .prop_map(|(exc, pool_frames, picks)| {
+            let frames = picks
+                .into_iter()
+                .map(|(i, file)| {
+                    let mut f = pool_frames[(i as usize * pool_frames.len()) >> 16].clone();
+                    f.file = Some(file.to_string());
+                    f
+                })
+                .collect();
+            TraceAst { exception: Some(exc), frames, cause: None }
+        })
+        .boxed()
+}
+
+/// Long decorated text: lines drawn (with repetition) from a small pool of generated lines.
+pub fn long_text(pool: &NamePool) -> BoxedStrategy<TextTrace> {
+    (text_lines(pool, 12), vec(any::<u16>(), 350..1500), 0u8..2, any::<bool>())
+        .prop_map(|(base, picks, eol, final_eol)| {
+            let lines = if base.is_empty() { vec![] } else { picks.into_iter().map(|i| base[(i as usize * base.len()) >> 16].clone()).collect() };
+            TextTrace { lines, eol, final_eol }
+        })
+        .boxed()
+}
+
+/// Typed traces whose frames carry parameter lists (C03 through the typed API).
+pub fn param_trace(pool: &NamePool, params: &[String]) -> BoxedStrategy<TraceAst> {
+    let ps: Vec<String> = if params.is_empty() { vec![String::new()] } else { params.to_vec() };
+    let classes: Vec<String> = pool.classes_or_default();
+    let methods = pool.methods_or_default();
+    let hits: Vec<(String, String, u64)> = pool.hits.clone();
+    let pf = (select(classes), select(methods), select(ps.clone())).prop_map(|(class, method, p)| FrameAst { class, method, line: 0, file: None, params: Some(p) });
+    let f: BoxedStrategy<FrameAst> = if hits.is_empty() {
+        pf.boxed()
+    } else {
+        prop_oneof![
+            1 => pf,
+            3 => (select(hits), select(ps)).prop_map(|((class, method, _), p)| FrameAst { class, method, line: 0, file: None, params: Some(p) }),
+        ]
+        .boxed()
+    };
+    // adjacent frames often share class and method but differ in the parameter string
+    (prop::option::of(throwable(pool)), vec((f, 0u8..100), 1..10))
+        .prop_map(|(exc, fs)| {
+            let mut frames: Vec<FrameAst> = Vec::new();
+            for (mut fr, dice) in fs {
+                if dice < 45 {
+                    if let Some(prev) = frames.last() {
+                        fr.class = prev.class.clone();
+                        fr.method = prev.method.clone();
+                    }
+                }
+                frames.push(fr);
+            }
+            TraceAst { exception: exc, frames, cause: None }
+        })
         .boxed()
 }
